@@ -135,13 +135,13 @@ pub fn apply_parsed(old: &[u8], p: &Parsed) -> Result<Vec<u8>, String> {
             return Err(format!("diff block exhausted: need {x} at {dpos}, have {}", p.diff.len()));
         }
         for i in 0..x {
-            let op = oldpos + i as i64;
+            let op = oldpos.saturating_add(i as i64);
             let o = if op >= 0 && op < old_size { old[op as usize] } else { 0 };
             new[newpos as usize + i] = p.diff[dpos + i].wrapping_add(o);
         }
         dpos += x;
         newpos += t.diff;
-        oldpos += t.diff;
+        oldpos = oldpos.checked_add(t.diff).ok_or("old position overflow")?;
         if newpos + t.extra > new_size {
             return Err(format!("extra run of {} at newpos {newpos} exceeds new size {new_size}", t.extra));
         }
